@@ -50,6 +50,7 @@ Shapes ==
 WrapShapes ==
      { <<"xdateS", k>> : k \in ScalarKinds } \cup { <<"xoidS", k>> : k \in ScalarKinds } \cup { <<"xbinB", k>> : k \in ScalarKinds }
   \cup { <<w, k>> : w \in {"xdateA", "xdateO", "xoidA", "xoidO", "xbinA", "xbinO", "xbinS", "xbinSA"}, k \in {"plain", "num", "null"} }
+  \cup { <<"xdateNL", k>> : k \in {"plain", "num"} }   \* canonical extended JSON: {"$date": {"$numberLong": "..."}}
 
 UF  == "uf1"
 UF2 == "uf2"
@@ -72,6 +73,7 @@ ShapeTree(sh) ==
     [] sh[1] = "xdateS" -> Obj(<< <<"$date", L(k)>> >>)
     [] sh[1] = "xoidS"  -> Obj(<< <<"$oid", L(k)>> >>)
     [] sh[1] = "xbinB"  -> Obj(<< <<"$binary", Obj(<< <<"base64", L(k)>>, <<"subType", Str("plain", "free")>> >>)>> >>)
+    [] sh[1] = "xdateNL" -> Obj(<< <<"$date", Obj(<< <<"$numberLong", L(k)>> >>)>> >>)
     [] sh[1] = "xdateA" -> Obj(<< <<"$date", Arr(<<L(k)>>)>> >>)
     [] sh[1] = "xdateO" -> Obj(<< <<"$date", Obj(<< <<UF, L(k)>> >>)>> >>)
     [] sh[1] = "xoidA"  -> Obj(<< <<"$oid", Arr(<<L(k)>>)>> >>)
@@ -104,7 +106,8 @@ Wrap(c, inner) ==
     [] c = "stage"         -> Arr(<<inner>>)
     [] c = "matchStage"    -> Arr(<< Obj(<< <<"$match", inner>> >>) >>)
     [] c = "subPipe"       -> Arr(<< Obj(<< <<"$lookup", Obj(<< <<"from", NsName>>, <<"pipeline", Arr(<<inner>>)>>, <<"as", Str("plain", "free")>> >>)>> >>) >>)
-    [] c = "facetPipe"     -> Arr(<< Obj(<< <<"$facet", Obj(<< <<UF2, Arr(<<inner>>)>> >>)>> >>) >>)
+    [] c = "facetPipe"     -> Arr(<< Obj(<< <<"$facet", Obj(<< <<UF2, Arr(<<inner>>)>>,
+                                                                 <<"uf3", Arr(<< Obj(<< <<"$match", Obj(<< <<UF, L("plain")>> >>)>> >>) >>)>> >>)>> >>) >>)
     [] c = "searchStage"   -> Arr(<< Obj(<< <<"$search", inner>> >>) >>)
     [] c = "compoundMust"  -> Arr(<< Obj(<< <<"$search", Obj(<< <<"index", Str("plain", "keep")>>, <<"compound", Obj(<< <<"must", Arr(<<inner>>)>> >>)>> >>)>> >>) >>)
     [] c = "embedded"      -> Arr(<< Obj(<< <<"$search", Obj(<< <<"embeddedDocument", Obj(<< <<"path", Str("plain", "free")>>, <<"operator", inner>> >>)>> >>)>> >>) >>)
